@@ -10,7 +10,11 @@ LEVEL_TEXT = ("Lean theorems (any number of unique functions, variants and ranks
               "combine_DL_comp<n>.dat of the real function, run on 1-5 ranks, with the model on generated tables")
 TECHNIQUE = "Lean 4 theorem over a model of the code + checked model/code correspondence"
 RULE = ("random result tables (2-40 uniques, 0-6 variants each, ties, +inf, NaN, all-NaN uniques, uniques without "
-        "variants, duplicate likelihoods) x rank count 1-5; one evaluation = one real combine_DL.main run on all ranks; "
+        "variants, duplicate likelihoods) x rank count 1-5, plus large tables on every seed: one of 41-8000 (thorough: "
+        "41-24000) unique functions per octave of size with description lengths in a band of 0.25-250 nats so that rows at "
+        "every position carry visible probability, likelihoods repeated at any distance, and tables of up to 3000 "
+        "(thorough 20000) variants over 2-12 uniques; a failing large table is bisected to its smallest failing prefix; "
+        "one evaluation = one real combine_DL.main run on all ranks; "
         "distinct by (table, rank count); non-trivial = at least two rows in the final table")
 EXPLANATION = ("Theorems in ESRVerif/Props/C06.lean over ESRVerif/Model/Rank.lean (per-unique nanmin/nanargmin, NaN mask, "
                "stable sort, duplicate-likelihood suppression, normalisation, rank partition); the real combine_DL.main is "
@@ -100,6 +104,82 @@ def gen_table(rng, mode="normal"):
     return dict(U=U, npar=npar, rows=rows)
 
 
+def gen_long(rng, R, shape="long"):
+    """A table (same dict as gen_table) that is LARGE in one of the two directions the property quantifies over.
+
+    shape "long": R unique functions, 1-4 variants each (mostly 1), so the final table has about R rows.  The
+    description lengths lie in a band of drawn width (0.25 ... 250 nats), so rows at EVERY position of the final
+    table, also far down, carry a share of the probability that is visible to the oracle both relatively (the
+    exp shape, no underflow) and — for the narrow bands — absolutely (the normalising sum).  Likelihoods repeating
+    that of an arbitrary earlier unique (any distance apart in the sorted table), ties on a coarse grid, NaN/+inf
+    variants and uniques without variants are mixed in at low rates.
+    shape "tall": R variant rows owned by only 2-12 unique functions (hundreds of variants per unique)."""
+    npar = rng.choice([0, 1, 1, 2])
+    width = rng.choice([0.25, 1.0, 4.0, 4.0, 20.0, 60.0, 250.0])
+    base = rng.choice([-30.0, 0.0, 50.0, 1000.0])
+    p_dup = rng.choice([0.02, 0.1, 0.3])
+    p_nan = rng.choice([0.0, 0.01, 0.05])
+    p_inf = rng.choice([0.0, 0.0, 0.01])
+    p_novar = rng.choice([0.0, 0.01])
+    p_more = rng.choice([0.0, 0.1, 0.3])
+    step = width / 64.0 if rng.random() < 0.25 else 0.0           # coarse grid: exact DL ties between uniques
+    rows, seen_nll = [], []
+
+    def variant(u, d, lead):
+        cl = 0.25 * rng.randint(0, 40)
+        af = rng.uniform(0.0, 12.0)
+        nll = _t7(d - cl - af)
+        if lead and seen_nll and rng.random() < p_dup:
+            nll = rng.choice(seen_nll)                               # an earlier unique's exact likelihood, another DL
+            cl = d - nll - af
+        r = rng.random()
+        if r < p_nan:
+            j = rng.randrange(3)
+            nll, cl, af = [NAN if i == j else x for i, x in enumerate((nll, cl, af))]
+        elif r < p_nan + p_inf:
+            cl = INF
+        elif lead:
+            seen_nll.append(nll)
+        rows.append([u, _t7(nll), _t7(cl), float(af), [_t7(rng.choice([0.0, rng.uniform(-9, 9)])) for _ in range(npar)]])
+
+    def target():
+        return base + (step * rng.randint(0, 64) if step else width * rng.random())
+
+    if shape == "tall":
+        U = rng.randint(2, 12)
+        for _ in range(R):
+            variant(rng.randrange(U), target(), False)
+    else:
+        U = R
+        for u in range(U):
+            if rng.random() < p_novar:
+                continue
+            d = target()
+            nv = 1
+            while nv < 4 and rng.random() < p_more:
+                nv += 1
+            best = rng.randrange(nv)
+            for k in range(nv):
+                variant(u, d if k == best else d + rng.choice([0.0, rng.uniform(0.0, 5.0)]), k == best)
+    while len(rows) < 2:
+        rows.append([rng.randrange(U), 1.0, 2.0, 3.0, [0.0] * npar])
+    if shape == "tall" or rng.random() < 0.5:
+        rng.shuffle(rows)
+    return dict(U=U, npar=npar, rows=rows)
+
+
+def long_plan(rng, deep):
+    """[(shape, R)]: one size per octave, so that EVERY position up to the largest size is reached by a row of some
+    table on every seed (a size-dependent cut at position T shows on any table with more than T rows)."""
+    top = 11 if deep else 9                                        # octaves up to 10*2**11 = 20480 / 10*2**9 = 5120
+    plan = [("long", rng.randint(10 * 2 ** k + 1, 10 * 2 ** (k + 1))) for k in range(2, top)]
+    plan.append(("long", rng.randint(22000, 24000) if deep else rng.randint(6001, 8000)))   # > 10*2**top rows survive NaN/no-variant losses (< 8 %)
+    if deep:
+        plan += [("long", rng.randint(41, 5120)) for _ in range(12)]
+    plan += [("tall", rng.randint(41, 20000 if deep else 3000)) for _ in range(4 if deep else 2)]
+    return plan
+
+
 def f2b(x):
     return str(struct.unpack("<Q", struct.pack("<d", float(x)))[0])
 
@@ -171,7 +251,7 @@ def read_outputs(d, t, comp=COMP):
 # running the real code (all ranks), in batches
 # ----------------------------------------------------------------------------------------------
 
-def run_real(ctx, jobs, tag, width=8, batch=80):
+def run_real(ctx, jobs, tag, width=8, batch=80, timeout=120.0):
     """jobs = [(table, P)] -> list of read_outputs dicts (same order)."""
     import mpirun
     root = os.path.join(ctx.tmp, "c06_%s" % tag)
@@ -189,6 +269,8 @@ def run_real(ctx, jobs, tag, width=8, batch=80):
     for P, ks in sorted(byP.items()):
         for a in range(0, len(ks), batch):
             launches.append((P, ks[a:a + batch]))
+    if batch == 1:                                            # long tables: one launch each, the longest first
+        launches.sort(key=lambda l: -len(jobs[l[1][0]][0]["rows"]))
     worker = os.path.join(common.HARNESS, "workers", "c06_combine.py")
     errors = {}
 
@@ -198,7 +280,7 @@ def run_real(ctx, jobs, tag, width=8, batch=80):
         json.dump(dict(comp=COMP, dirs=[dirs[k] for k in ks]), open(jf, "w"))
         sd = os.path.join(root, "so%04d" % n)
         os.makedirs(sd)
-        res = mpirun.run(P, [worker, jf], env_extra=ctx.env(), cwd=ctx.stage, python=common.PY, timeout=120.0, stdout_dir=sd)
+        res = mpirun.run(P, [worker, jf], env_extra=ctx.env(), cwd=ctx.stage, python=common.PY, timeout=timeout, stdout_dir=sd)
         shutil.rmtree(res.get("tmp", ""), ignore_errors=True)
         if not res["ok"]:
             tail = ""
@@ -281,7 +363,7 @@ def oracle(t, final):
         if neg:
             bad.append(("prel-nonneg", "Prel of row %d is %r (not >= 0)%s" % (neg[0], final[neg[0]]["prel"],
                         "" if anyfinite else "; no description length in the table is finite")))
-        dup = [any(final[j]["nll"] == final[i]["nll"] for j in range(i)) for i in range(len(final))]
+        dup = _repeats([f["nll"] for f in final])
         for i, f in enumerate(final):
             if dup[i] and not neg and f["prel"] != 0.0:
                 bad.append(("prel-dup", "row %d repeats an earlier likelihood %r but has Prel %r" % (i, f["nll"], f["prel"])))
@@ -294,11 +376,31 @@ def oracle(t, final):
             if not abs(tot - 1.0) <= 1e-9:
                 bad.append(("prel-sum", "Prel sums to %r although a description length is finite" % tot))
             elif s > 0 and math.isfinite(s):
-                for i, f in enumerate(final):
-                    if not _close(f["prel"], w[i] / s, 1e-9):
-                        bad.append(("prel-shape", "row %d: Prel %r, expected exp(-(DL-DL0))/sum = %r" % (i, f["prel"], w[i] / s)))
-                        break
+                off = [i for i, f in enumerate(final) if not _close(f["prel"], w[i] / s, 1e-9)]
+                if off:
+                    i = off[0]
+                    msg = "row %d: Prel %r, expected exp(-(DL-DL0))/sum = %r" % (i, final[i]["prel"], w[i] / s)
+                    zero = [j for j in off if final[j]["prel"] == 0.0]
+                    if len(off) > 1:
+                        msg += "; %d of %d rows differ" % (len(off), len(final))
+                    if zero and zero[0] != i:
+                        j = zero[0]
+                        msg += "; first row with Prel 0 that repeats no earlier likelihood: row %d (DL-DL0 = %r, expected %r)" % (
+                            j, final[j]["dl"] - d0, w[j] / s)
+                    bad.append(("prel-shape", msg))
     return bad
+
+
+def _repeats(xs):
+    """[x_i == x_j for some j < i] — float `==` (NaN equals nothing, the two zeros are equal), in linear time."""
+    seen, out = set(), []
+    for x in xs:
+        if x != x:
+            out.append(False)
+            continue
+        out.append(x in seen)          # hash(0.0) == hash(-0.0) and 0.0 == -0.0: set membership is `==` on non-NaN floats
+        seen.add(x)
+    return out
 
 
 def _expneg(x):
@@ -344,7 +446,7 @@ def compare_final(real, line, t):
         mp = [b2f(x) for x in m[8:]]
         if len(mp) != len(f["params"]) or not all(_same(a, b) for a, b in zip(mp, f["params"])):
             return "row %d params: code %r model %r" % (i, f["params"], mp)
-        if not _close(b2f(m[4]), f["prel"], 1e-12):
+        if not _close(b2f(m[4]), f["prel"], 1e-12 + 4.5e-16 * len(mrows)):
             return "row %d Prel: code %r model %r" % (i, f["prel"], b2f(m[4]))
         if (b2f(m[4]) == 0.0) != (f["prel"] == 0.0) and max(abs(b2f(m[4])), abs(f["prel"])) > 1e-300:
             return "row %d Prel zero-ness: code %r model %r" % (i, f["prel"], b2f(m[4]))
@@ -400,7 +502,7 @@ def features(t, real):
         if len(set(d)) < len(d):
             f.add("tie-between-uniques")
         n = [x["nll"] for x in real["final"]]
-        if any(any(n[j] == n[i] for j in range(i)) for i in range(len(n))):
+        if any(_repeats(n)):
             f.add("duplicate-likelihood(l.157)")
         if not d:
             f.add("empty-final(l.143,181)")
@@ -411,10 +513,46 @@ def features(t, real):
     return f
 
 
-def explore(ctx, n, tag, deep=False):
+def shrink(ctx, t, P, kinds):
+    """Smallest prefix of the unique functions (rows of uniques < m, U = m) on which the real code still breaks the
+    property in one of `kinds` — found by bisection, every candidate judged by the oracle on a real run.
+    Returns (table, P, note); the input itself when no smaller failing prefix is confirmed."""
+    def cut(m):
+        return dict(U=m, npar=t["npar"], rows=[r for r in t["rows"] if r[0] < m])
+
+    def fails(c, p):
+        if len(c["rows"]) < 2:
+            return False
+        real = run_real(ctx, [(c, p)], "shrink", batch=1, timeout=900.0)[0]
+        return "final" in real and any(k in kinds for k, _ in oracle(c, real["final"]))
+
+    lo, hi = 2, t["U"]                       # invariant: cut(hi) fails; cut(lo) is not known to
+    if fails(cut(lo), P):
+        hi = lo
+    while hi - lo > 1:
+        mid = (lo + hi) // 2
+        if fails(cut(mid), P):
+            hi = mid
+        else:
+            lo = mid
+    best, note = cut(hi), ""
+    if hi < t["U"]:
+        note = "; shrunk from %d unique functions: with the first %d the property still fails, %s" % (
+            t["U"], hi, "with the first %d it holds" % (hi - 1) if hi > 2 else "the smallest admissible number")
+    if P > 1 and fails(best, 1):
+        P = 1
+    return best, P, note
+
+
+def explore(ctx, n, tag, deep=False, plan=None):
+    """n random small tables, or (plan = [(shape, R)]) the large tables of `long_plan`."""
     rng = ctx.rng
     jobs = []
-    for k in range(n):
+    for shape, R in (plan or []):
+        t = gen_long(rng, R, shape)
+        jobs.append((t, rng.choice([1, 1, 1, 2, 3, 5]) if R <= 8000 else rng.choice([1, 2, 4])))
+    n = len(jobs) if plan else n
+    for k in range(0 if plan else n):
         r = rng.random()
         mode = "allinf" if r < 0.012 else "allnan" if r < 0.024 else "one-row" if r < 0.030 else "no-row" if r < 0.034 else "normal"
         t = gen_table(rng, mode)
@@ -424,7 +562,7 @@ def explore(ctx, n, tag, deep=False):
         if deep and rng.random() < 0.007:
             P = rng.choice([11, 12])                                 # two-digit rank numbers in the per-rank file names (sort -V)
         jobs.append((t, P))
-    outs = run_real(ctx, jobs, tag)
+    outs = run_real(ctx, jobs, tag, batch=1, timeout=900.0) if plan else run_real(ctx, jobs, tag)
     lines = common.model([op_line("rank", t, P) for t, P in jobs] + [op_line("rankmins", t, P) for t, P in jobs])
     nbad = 0
     feat = {}
@@ -438,7 +576,11 @@ def explore(ctx, n, tag, deep=False):
             feat[f] = feat.get(f, 0) + 1
         if P > t["U"]:
             feat["P>U"] = feat.get("P>U", 0) + 1
-        for nm, v in (("P", P), ("U", t["U"]), ("rows", len(t["rows"])), ("final_rows", nfinal)):
+        if plan:
+            feat["large:" + plan[k][0]] = feat.get("large:" + plan[k][0], 0) + 1
+            ctx.extra.setdefault("large_tables", []).append(dict(shape=plan[k][0], U=t["U"], variant_rows=len(t["rows"]),
+                                                                  final_rows=nfinal, P=P))
+        for nm, v in (() if plan else (("P", P), ("U", t["U"]), ("rows", len(t["rows"])), ("final_rows", nfinal))):
             dist[nm][v] = dist[nm].get(v, 0) + 1
         if "error" in real and len(t["rows"]) >= 2:
             ctx.disagree("corr:run", "real run failed on a table with %d rows, P=%d: %s" % (len(t["rows"]), P, real["error"][:300]))
@@ -451,9 +593,17 @@ def explore(ctx, n, tag, deep=False):
             nbad += 1
             ctx.disagree("corr:combine_DL.main", dict(what=d1 or d2, P=P, op=op_line("rank", t, P)[:1500]))
         if "final" in real:
-            for kind, msg in oracle(t, real["final"]):
-                if kind == "excluded":
-                    continue
+            bad = [b for b in oracle(t, real["final"]) if b[0] != "excluded"]
+            if bad and plan and not any(f["key"] == "%s@combine_DL.main" % b[0] for f in ctx.failures for b in bad):
+                # a large failing table: report the smallest failing prefix of it (judged again on the real code)
+                t2, P2, note = shrink(ctx, t, P, set(b[0] for b in bad))
+                if note or P2 != P:
+                    real2 = run_real(ctx, [(t2, P2)], "shrunk", batch=1, timeout=900.0)[0]
+                    bad2 = [b for b in oracle(t2, real2.get("final", [])) if b[0] != "excluded"] if "final" in real2 else []
+                    if bad2:
+                        t, P, bad = t2, P2, [(k_, m_ + note) for k_, m_ in bad2]
+                        wire = dict(table=table_to_wire(t), P=P)
+            for kind, msg in bad:
                 ctx.fail("%s@combine_DL.main" % kind, "%s (U=%d, %d variant rows, P=%d)" % (msg, t["U"], len(t["rows"]), P), wire)
         if k < 3:
             ctx.sample(dict(P=P, U=t["U"], variant_rows=len(t["rows"]),
@@ -474,9 +624,17 @@ def run(ctx):
     feat, dist = {}, {}
     chunk = 4000
     done = 0
-    while done < n:
-        m = min(chunk, n - done)
-        b, f, d = explore(ctx, m, "x%d" % done, deep)
+    nlarge, large_done = 0, False
+    while done < n or not large_done:
+        if not large_done and done >= min(chunk, n):
+            # the large tables come after the first chunk of small ones (a fault that small tables show is then
+            # reported on a small table) and before the rest of a thorough-depth run
+            plan = long_plan(ctx.rng, deep)
+            b, f, d = explore(ctx, 0, "large", deep, plan=plan)
+            nlarge, large_done, m = len(plan), True, 0
+        else:
+            m = min(chunk, n - done)
+            b, f, d = explore(ctx, m, "x%d" % done, deep)
         nbad += b
         for k, v in f.items():
             feat[k] = feat.get(k, 0) + v
@@ -485,17 +643,22 @@ def run(ctx):
                 dist.setdefault(nm, {})[k] = dist.get(nm, {}).get(k, 0) + v
         done += m
         if any(not any(re.fullmatch(e["match"], f["key"]) for e in kf) for f in ctx.failures):
-            ctx.notes.append("stopped after %d tables: a failing input was found" % done)
+            ctx.notes.append("stopped after %d small and %d large tables: a failing input was found" % (done, nlarge))
             n = done
             break
     ctx.extra["corr_obligations"] = 1
     ctx.extra["corr_discharged"] = int(nbad == 0)
-    ctx.extra["correspondence"] = dict(tables=n, mismatching=nbad, compared="final_<n>.dat rows (rank, function, DL/terms/params bit-exact, "
+    ctx.extra["correspondence"] = dict(tables=n + nlarge, mismatching=nbad, compared="final_<n>.dat rows (rank, function, DL/terms/params bit-exact, "
                                        "Prel to 1e-12) and combine_DL_comp/fcn_comp rows, model run with the same rank count")
     ctx.extra["branches_hit"] = {k: feat[k] for k in sorted(feat)}
     ctx.extra["input_distribution"] = {nm: {str(k): v for k, v in sorted(d.items())} for nm, d in dist.items()}
-    ctx.extra["bounds"] = dict(uniques="2-40", variants_per_unique="0-6", ranks="1-5 (thorough: also 11, 12 rarely)", params="0-3",
-                               values="reals (to 1e5), +inf, NaN; no -inf, no -0.0")
+    ctx.extra["bounds"] = dict(uniques="2-40 (random small tables); 41-%d in the large tables, one size per octave" % (24000 if deep else 8000),
+                               variants_per_unique="0-6 (small tables); up to several hundred in the `tall` large tables "
+                                                   "(41-%d variant rows over 2-12 uniques)" % (20000 if deep else 3000),
+                               ranks="1-5 (thorough: also 11, 12 rarely)", params="0-3",
+                               values="reals (to 1e5), +inf, NaN; no -inf, no -0.0",
+                               final_table_positions="every row position below %d is occupied by a probability-carrying row of some table "
+                                                     "on every seed" % (20000 if deep else 5120))
     ctx.extra["excluded_points"] = ["a description length of -inf", "fewer than two variant rows in total (IndexError at combine_DL.py:42; "
                                     "model returns `none`, agreement is checked)"]
 
@@ -504,14 +667,26 @@ def replay(ctx, data):
     rp = data["replay"]
     t = table_from_wire(rp["table"])
     P = rp["P"]
-    real = run_real(ctx, [(t, P)], "replay")[0]
-    print("table: U=%d npar=%d P=%d" % (t["U"], t["npar"], P))
-    for j, r in enumerate(t["rows"]):
+    real = run_real(ctx, [(t, P)], "replay", batch=1, timeout=900.0)[0]
+    print("table: U=%d npar=%d P=%d, %d variant rows" % (t["U"], t["npar"], P, len(t["rows"])))
+
+    def show(n):                                               # large tables: head and tail only
+        return list(range(n)) if n <= 60 else list(range(20)) + [None] + list(range(n - 8, n))
+
+    for j in show(len(t["rows"])):
+        if j is None:
+            print("  ...")
+            continue
+        r = t["rows"][j]
         print("  v%d: unique %d nll=%r codelen=%r aifeyn=%r DL=%r" % (j, r[0], r[1], r[2], r[3], (r[1] + r[2]) + r[3]))
     if "error" in real:
         print("combine_DL.main failed:", real["error"])
         return False
-    for f in real["final"]:
+    for i in show(len(real["final"])):
+        if i is None:
+            print("  ...")
+            continue
+        f = real["final"][i]
         print("  final:", f["rank"], f["fcn"], "DL=%r Prel=%r nll=%r" % (f["dl"], f["prel"], f["nll"]))
     bad = [b for b in oracle(t, real["final"]) if b[0] != "excluded"]
     for kind, msg in bad:
